@@ -106,9 +106,11 @@ Print Assumptions C20_test_config_in_shared_frontier_refuted.
 
 (* nothing derived from the running test's FunctionContext reaches get_frontier /
    _compute_frontier / run_target_contract / run_target_function, and the cache is read and
-   written under the depth alone (regenerated data-flow facts) *)
+   written under the depth alone; run_contract puts the post-setUp state into frontier_states[0]
+   and does not register it as visited (regenerated data-flow facts) *)
 Theorem C20_frontier_inputs_contract_level :
-  explore_cfg_src = SrcContract /\ frontier_test_inputs = [] /\ cache_key_depth_only = true.
+  explore_cfg_src = SrcContract /\ frontier_test_inputs = [] /\ cache_key_depth_only = true /\
+  setup_state_visited = false.
 Proof. exact frontier_flow_facts. Qed.
 Print Assumptions C20_frontier_inputs_contract_level.
 
